@@ -166,7 +166,7 @@ class KllC07(Part):
         return h
 
     def generate(self, rng, tier):
-        n = 100 if tier == "quick" else 400
+        n = 100 if tier == "quick" else 250
         return [self.one_history(rng, tier) for _ in range(n)]
 
     # ------------------------------------------------------------------ the property statement on one trace
